@@ -62,15 +62,15 @@ Proof.
   - change (rows_eqb _ ex_bad) with false. cbv iota. apply (ne_of _ [0]). vm_compute. reflexivity.
   - change (rows_eqb _ ex_bad) with true. cbv iota. intros [x Hx]. exact (ex_bad_empty x Hx).
 Qed.
-Lemma ex_okc : okc_kids [] ex_t.
+Lemma ex_okc : okc_kids 0 [] ex_t.
 Proof.
   cbn. intros _. repeat split; auto; try (left; reflexivity); intros; try discriminate.
 Qed.
-Example ex_effective : eff_root [] (fst (elim ex_o 0 ex_t)).
-Proof. apply elim_eff; [exact ex_exact | apply ex_mir | reflexivity | exact ex_okc | exact I]. Qed.
+Example ex_effective : eff_root 0 [] (fst (elim ex_o 0 ex_t)).
+Proof. apply elim_eff; [apply Qcle_refl | exact ex_exact | apply ex_mir | reflexivity | exact ex_okc | exact I]. Qed.
 
 Lemma ex_c06 :
-  eff_root [] (fst (elim ex_o 0 ex_t)) /\
+  eff_root 0 [] (fst (elim ex_o 0 ex_t)) /\
   elim ex_o 0 ex_t = (ex_r, {| k_lp := 4; k_mir := 0 |}) /\
   elim ex_o 0 ex_r = (ex_r, k0).
 Proof.
